@@ -221,8 +221,26 @@ fn op_exq(name: &[u8], paths: &str) -> String {
     let res = match Metainfo::from_bencode(&doc) {
         Ok(m) => {
             std::env::set_current_dir(&cwd).unwrap();
+            // the system's temporary directory is outside the download directory too: point it into the scratch area, so
+            // that anything created there shows in the listing below
+            let systmp = canary.join("systmp");
+            std::fs::create_dir_all(&systmp).unwrap();
+            let old_tmp = std::env::var_os("TMPDIR");
+            std::env::set_var("TMPDIR", &systmp);
             write_pieces(4, &content);
-            let r = run_extract(&m);
+            let mut r = run_extract(&m);
+            if files.len() % 2 == 0 {
+                // the client is started a second time in the directory of the finished download
+                write_pieces(4, &content);
+                let r2 = run_extract(&m);
+                if r.is_ok() {
+                    r = r2;
+                }
+            }
+            match old_tmp {
+                Some(v) => std::env::set_var("TMPDIR", v),
+                None => std::env::remove_var("TMPDIR"),
+            }
             std::env::set_current_dir(&base).unwrap();
             if r.is_ok() { "ok" } else { "err" }
         }
@@ -233,7 +251,7 @@ fn op_exq(name: &[u8], paths: &str) -> String {
     let jail_rel: String = vec!["n"; JAIL_DEPTH].join("/");
     let mut listing = vec![];
     for p in all {
-        if p.ends_with(".piece") || p == "cwd/" {
+        if p.ends_with(".piece") || p == "cwd/" || p == "systmp/" {
             continue;
         }
         let q = p.trim_end_matches('/');
